@@ -31,12 +31,18 @@ type sideScript struct {
 	// EndWithData: the Read that returns the last bytes also returns the
 	// EOF/error (what a transport's Read does with decoded data + a fatal error)
 	EndWithData bool
+	// Window > 0: this side's peer does not drain: writes towards this side
+	// block once Window bytes are queued (a peer that stopped reading)
+	Window int
 }
 
 func (s sideScript) String() string {
 	e := ""
 	if s.EndWithData {
 		e = " end-with-data"
+	}
+	if s.Window > 0 {
+		e += fmt.Sprintf(" window=%d", s.Window)
 	}
 	return fmt.Sprintf("chunks=%v end=%q wfail=%d%s", s.Chunks, s.End, s.WriteFail, e)
 }
@@ -62,6 +68,7 @@ func copyScenario(name string, sa, sb sideScript, bound int, free bool) mc.Scena
 			aLocal, aPeer := wire.Pipe("a", "a-peer")
 			bLocal, bPeer := wire.Pipe("b", "b-peer")
 			aLocal.CoalesceEnd, bLocal.CoalesceEnd = sa.EndWithData, sb.EndWithData
+			aLocal.Window, bLocal.Window = sa.Window, sb.Window
 			var produced [2][]byte
 			returned := false
 			var retErr error
@@ -363,8 +370,8 @@ func c19Scenarios(cfg *mc.Config, emit func(mc.Scenario)) {
 							if wfa >= 0 && !wfReachable(wfa, cb) || wfb >= 0 && !wfReachable(wfb, ca) {
 								continue
 							}
-							sa := sideScript{ca, ea, wfa, false}
-							sb := sideScript{cb, eb, wfb, false}
+							sa := sideScript{ca, ea, wfa, false, 0}
+							sb := sideScript{cb, eb, wfb, false, 0}
 							emit(copyScenario(fmt.Sprintf("copy/a[%v]/b[%v]", sa, sb), sa, sb, b, false))
 						}
 					}
@@ -375,16 +382,24 @@ func c19Scenarios(cfg *mc.Config, emit func(mc.Scenario)) {
 	// the last bytes arrive in the same Read as the EOF / error
 	for _, end := range []string{"eof", "rerr"} {
 		for _, ch := range [][]int{{3}, {3, 5}} {
-			sa := sideScript{ch, end, -1, true}
-			for _, sb := range []sideScript{{nil, "", -1, false}, {[]int{3}, "", -1, false}, {[]int{4}, end, -1, true}} {
+			sa := sideScript{ch, end, -1, true, 0}
+			for _, sb := range []sideScript{{nil, "", -1, false, 0}, {[]int{3}, "", -1, false, 0}, {[]int{4}, end, -1, true, 0}} {
 				emit(copyScenario(fmt.Sprintf("copy/end-with-data/a[%v]/b[%v]", sa, sb), sa, sb, b, false))
 				emit(copyScenario(fmt.Sprintf("copy/end-with-data/b[%v]/a[%v]", sa, sb), sb, sa, b, false))
 			}
 		}
 	}
 	if !cfg.Thorough() {
-		emit(copyScenario("copy/big/a[40000,eof]", sideScript{[]int{40000}, "eof", -1, false}, sideScript{[]int{3}, "", -1, false}, b, false))
-		emit(copyScenario("copy/big/wfail1", sideScript{[]int{3}, "", 1, false}, sideScript{[]int{40000}, "", -1, false}, b, false))
+		emit(copyScenario("copy/big/a[40000,eof]", sideScript{[]int{40000}, "eof", -1, false, 0}, sideScript{[]int{3}, "", -1, false, 0}, b, false))
+		// a peer that stopped reading: the direction towards it is blocked in
+		// Write when that same side ends; the relay must still tear down
+		for _, end := range []string{"eof", "rerr"} {
+			for _, chunks := range [][]int{{5, 5}, {3, 3, 3}} {
+				emit(copyScenario(fmt.Sprintf("copy/blocked-writer/a-%s/b%v", end, chunks), sideScript{nil, end, -1, false, 4}, sideScript{chunks, "", -1, false, 0}, b, false))
+				emit(copyScenario(fmt.Sprintf("copy/blocked-writer/b-%s/a%v", end, chunks), sideScript{chunks, "", -1, false, 0}, sideScript{nil, end, -1, false, 4}, b, false))
+			}
+		}
+		emit(copyScenario("copy/big/wfail1", sideScript{[]int{3}, "", 1, false, 0}, sideScript{[]int{40000}, "", -1, false, 0}, b, false))
 	}
 	// visited-state pruning makes the complete interleaving space finite
 	// and small: explore it without a preemption bound.
